@@ -619,13 +619,14 @@ impl State {
             // purge meta context code after evaluation
             self.code.truncate(self.ctx.cs_len);
             self.debug_map.truncate(self.ctx.cs_len);
-            // remove non-constant words
+            // remove non-constant words; the constants keep their order of definition
+            // (a name defined twice means its latest value)
             let mut i = self.ctx.di_len;
             while i < self.dict.len() {
                 if let Entry::Constant(_) = &self.dict[i].entry {
                     i += 1;
                 } else {
-                    self.dict.swap_remove(i);
+                    self.dict.remove(i);
                 }
             }
             // an enclosing meta block that is in the middle of a definition, builder or branch
